@@ -6,6 +6,19 @@ ids=[p['id'] for p in props]
 
 # id -> (technique, level text, level note, design ref)
 BUILT={
+"C11": ("proptest over (server default x endpoint override x extractor x body length around/beyond the limit x framing/chunk boundaries), live servers; accepted-intact-iff-within-limit oracle plus bytes-observed bound",
+        "For every generated configuration a live server is started; a body of exactly chosen length (0, L-2..L+2, 2L, up to 1 MiB) is sent with content-length or chunked framing whose chunk boundaries fall at, just before and just after the limit; len <= L must be delivered intact (length + hash, and the handler sees limit L), len > L must get a 4xx with buffered handlers never entered; the largest running total any streaming handler observed after each chunk and the largest buffer any buffered handler saw must never exceed L.",
+        "Sampling; frame boundaries inside hyper are influenced but not controlled by the chunking; an empty body for the JSON extractor is replaced by a 1-byte body.",
+        "DESIGN.md section 4 C11"),
+"C12": ("proptest over response kinds x values x declared/explicit headers x redirect locations; status-table / JSON round-trip / header-override / RFC 9110 field-content oracles, in-process to_result() and live",
+        "Every response kind is built from generated values (any Unicode, control characters, u64::MAX/i64::MIN, nesting, maps) and judged in-process through HttpResponse::to_result() and over the wire through one endpoint per kind: status from the statement's table, content type application/json, body parses to a value equal to the returned one and deserialises back to an equal struct, empty body for 204/3xx, declared headers present, explicit headers override declared ones of the same name (all explicit values sent), redirect location sent iff it is a legal header value, else an error.",
+        "Sampling; header values compared after OWS trimming on the wire; NaN/infinity not generated.",
+        "DESIGN.md section 4 C12"),
+"C14": ("proptest over selectors sized around the 512-character bound (round trip through ResultsPage::new and PaginationParams), constructed-invalid tokens and free mutations judged against an independent lenient base64url/JSON decoder, live limit-clamp table",
+        "Issued tokens must be accepted back to an equal selector, alone and next to arbitrary ill-typed scan parameters; the framework may refuse to issue only tokens that would exceed the bound; tokens invalid by construction (over-long but otherwise valid, character outside the URL-safe alphabet, base64 of non-JSON, missing/wrong version, wrong shape, trailing garbage, empty) must be refused without panic; mutated tokens, if accepted, must yield the selector an independent lenient decoder finds; live: bad tokens get 4xx, effective page size = min(limit, 10000), default 100, zero/negative/non-numeric/fractional/over-u32 limits get 4xx and no handler entry.",
+        "Sampling; selectors contain no floats; own base64url implementation is the reference.",
+        "DESIGN.md section 4 C14"),
+
 "C09": ("proptest over batches of concurrent/pipelined clients sending values in every legal encoding to typed echo endpoints; round-trip (encode -> serve -> echo) oracle",
         "Values of every declared parameter/body type (strings over all of Unicode, numeric extremes, bools, enums, options, vectors, maps, nested/recursive structs, uuid, raw bytes, multipart parts) are encoded by independent client-side encoders with randomized but legal style choices (percent-encoding eagerness/hex case, + vs %20, key order, JSON escapes and whitespace, null vs absent, content-type spelling and parameters, quoted multipart boundary, content-length vs chunked with extensions/trailers, TCP write splits) and sent by up to 16 (thorough 64) concurrent clients with keep-alive and pipelining; each echo must equal what was encoded and carry its own request's method, URI, header tag, peer address and request id.",
         "Sampling; server-side thread interleavings are not controlled (only schedule-independent equalities are asserted). JSON floats restricted to exactly-parsed values. A connection closed by the server between responses is retried like a real client would.",
